@@ -10,6 +10,7 @@ import (
 	"fmt"
 
 	mocker "github.com/tencent/goom"
+	"github.com/tencent/goom/arg"
 	"github.com/tencent/goom/erro"
 	hwd "verifh/hworld"
 	"verifh/targets/hw"
@@ -31,10 +32,22 @@ type chain struct {
 	post   func() string
 }
 
+// sharedExpr: an expression object that has served one well-formed configuration (an int32
+// parameter) and is then used for a parameter of another size.
+func sharedExpr(b *mocker.Builder) interface{} {
+	e := arg.Equals(int32(7))
+	b.Func(hw.P32).Return(1).When(e).Return(2)
+	return e
+}
+
 func vfStub(b *mocker.Builder) interface{} { return b.Func(hw.VF).Return(5).When(1, "x").Return(6) }
 
 // chains by mistake name (the catalogue entry of such a mistake has no do of its own).
 var chains = map[string]chain{
+	"func: When with an expression object of another size that has served a well-formed configuration": {sharedExpr, func(b *mocker.Builder, ctx interface{}) error {
+		b.Func(hw.N0).When(ctx).Return(5)
+		return nil
+	}, func() string { return "" }}, // (what the rejected Resolve does to the shared object is the user's sharing, not judged)
 	"variadic func: chained When with fewer arguments than fixed parameters": {vfStub, func(b *mocker.Builder, ctx interface{}) error {
 		ctx.(*mocker.When).When(1).Return(7)
 		return nil
@@ -199,6 +212,7 @@ func catalogue() []mistake {
 		{"var: non-pointer", func(b *mocker.Builder) error { b.Var(hw.PlainVar).Set(1); return nil }},
 		{"var: Apply with a non-function", func(b *mocker.Builder) error { b.Var(&hw.PlainVar).Apply(42); return nil }},
 		{"unexported var: unknown name", func(b *mocker.Builder) error { b.UnExportedVar("verifh/targets/hw.nope").Set(1); return nil }},
+		{"func: When with an expression object of another size that has served a well-formed configuration", nil},
 		// a condition chained onto an existing stub (see chains)
 		{"variadic func: chained When with fewer arguments than fixed parameters", nil},
 		{"variadic func: chained In with fewer arguments than fixed parameters", nil},
@@ -321,6 +335,18 @@ func runCase(prefix []hwd.Op, mk mistake) (fail string, judged int) {
 		n++
 		if ex := extras(); ex != exBefore {
 			return fmt.Sprintf("untouched-changed: never-mocked functions/variables changed from %s to %s after the rejected %q", exBefore, ex, mk.name), n, 0
+		}
+		// the same mistake a second time (a test table, a retry after recover): it must be rejected again
+		n++
+		if _, p2, e2 := tryVal(func() error { return do(w.B[0]) }); !p2 && e2 == nil {
+			return fmt.Sprintf("accepted: the ill-formed configuration %q was rejected the first time and accepted when made again", mk.name), n, 0
+		}
+		n++
+		if !bytes.Equal(vk.Raw(hwd.Img.Start, len(before)), before) {
+			return fmt.Sprintf("image-changed: the configuration %q, rejected twice, changed the executable image", mk.name), n, 0
+		}
+		if ex := extras(); ex != exBefore {
+			return fmt.Sprintf("untouched-changed: never-mocked functions/variables changed from %s to %s after the twice rejected %q", exBefore, ex, mk.name), n, 0
 		}
 		if chained {
 			n++
